@@ -527,6 +527,39 @@ func factsC19() {
 			idx(evs, 0, "call", `^tb\.take\(tb\.clock\.Now\(\), count, infinityDuration\)$`) > 1
 	}
 	boolFact(g, "tbWaitSleepsTake", wOK && tOK, "Wait: `if d := tb.Take(count); d > 0 { tb.clock.Sleep(d) }`; Take: under tb.mu, tb.take(tb.clock.Now(), count, infinityDuration)")
+	// the search for (quantum, fillInterval): nextQuantum's arithmetic and the loop's shape
+	if nq := lib.funcs["nextQuantum"]; nq != nil && len(nq.Body.List) == 3 {
+		var first ast.Expr
+		if a, ok := nq.Body.List[0].(*ast.AssignStmt); ok && len(a.Lhs) == 1 && show(a.Lhs[0]) == "q1" && a.Tok == token.DEFINE {
+			first = a.Rhs[0]
+		}
+		g19emitNum(g, "tbNextQuantumFirst", "(q : Int)", first, map[string]string{"q": "q"})
+		boolFact(g, "tbNextQuantumShape", show(nq.Body.List[1]) == "if q1 == q { q1++ }" && show(nq.Body.List[2]) == "return q1",
+			"nextQuantum: q1 := ...; if q1 == q { q1++ }; return q1")
+	} else {
+		unrec(g, "tbNextQuantumFirst", "nextQuantum not found or not three statements")
+	}
+	if nr := lib.funcs["NewBucketWithRateAndClock"]; nr != nil {
+		okShape := false
+		for _, st := range nr.Body.List {
+			f, ok := st.(*ast.ForStmt)
+			if !ok {
+				continue
+			}
+			okShape = show(f.Init) == "quantum := int64(1)" && show(f.Cond) == "quantum < 1<<50" && show(f.Post) == "quantum = nextQuantum(quantum)" &&
+				len(f.Body.List) == 5 &&
+				show(f.Body.List[0]) == "fillInterval := time.Duration(1e9 * float64(quantum) / rate)" &&
+				show(f.Body.List[1]) == "if fillInterval <= 0 { continue }" &&
+				show(f.Body.List[2]) == "tb.fillInterval = fillInterval" && show(f.Body.List[3]) == "tb.quantum = quantum" &&
+				show(f.Body.List[4]) == "if diff := math.Abs(tb.Rate() - rate); diff/rate <= rateMargin { return tb }"
+		}
+		rt := lib.funcs["Bucket.Rate"]
+		okRate := rt != nil && len(rt.Body.List) == 1 && show(rt.Body.List[0]) == "return 1e9 * float64(tb.quantum) / float64(tb.fillInterval)"
+		boolFact(g, "tbSearchShape", okShape && okRate,
+			"NewBucketWithRateAndClock: for quantum := 1; quantum < 1<<50; quantum = nextQuantum(quantum) { fillInterval := Duration(1e9*float64(quantum)/rate); <= 0 -> continue; |Rate()-rate|/rate <= rateMargin -> return }; Rate() = 1e9*quantum/fillInterval")
+	} else {
+		unrec(g, "tbSearchShape", "NewBucketWithRateAndClock not found")
+	}
 	// the constructor Cloak calls searches (quantum, fillInterval) within rateMargin of the rate
 	if e, ok := lib.consts["rateMargin"]; ok {
 		emit(g, "tbRateMarginText", "String", leanStr(show(e)), "ratelimit const rateMargin")
